@@ -6,7 +6,7 @@ import json, os, subprocess, sys, shutil, concurrent.futures as cf, re, time
 V = "/verif"
 # which checks to run for a change seeded against property X (the property itself + closely related ones)
 ALSO = {"C01": ["C01", "C11"], "C02": ["C02", "C01"], "C03": ["C03"], "C04": ["C04", "C10"], "C06": ["C06"], "C07": ["C07"], "C08": ["C08", "C02"], "C09": ["C09"],
-        "C10": ["C10", "C04"], "C11": ["C11", "C01", "C03", "C06", "C04", "C09"], "C12": ["C12", "C01", "C08", "C09"], "C13": ["C13", "C12"], "C14": ["C14", "C09"], "C16": ["C16", "C01", "C07"]}
+        "C10": ["C10", "C04"], "C11": ["C11", "C01", "C03", "C06", "C04", "C09"], "C12": ["C12", "C01", "C08", "C09"], "C13": ["C13", "C12"], "C14": ["C14", "C09", "C08"], "C16": ["C16", "C01", "C07"]}
 
 def run_one(name):
     prop = name.split("-")[0]
